@@ -188,7 +188,11 @@ func decodeTimestamp(s []byte) (time.Time, error) {
 func normalizeMessage(msg string) string {
 	msg = strings.ReplaceAll(msg, "\n", " ")
 	msg = strings.ReplaceAll(msg, "\r", " ")
-	fields := strings.Fields(msg)
+	// git's copy_reflog_msg collapses only ASCII space, tab, LF and CR
+	// (its locale-independent isspace); other Unicode spaces stay as they are.
+	fields := strings.FieldsFunc(msg, func(r rune) bool {
+		return r == ' ' || r == '\t' || r == '\n' || r == '\r'
+	})
 	return strings.Join(fields, " ")
 }
 
